@@ -74,10 +74,10 @@ PROPS = {
                                      'linearDistOfHydropathy', 'linearDenistyOfAAs', '__parse_group', 'linearCompositions')] +
                   [SP + f for f in ('get_linear_NCPR', 'get_linear_FCR', 'get_linear_sigma', 'get_linear_hydropathy',
                                     'get_linear_sequence_composition')],
-        lemmas=['sum_ext'],
+        lemmas=['sum_ext', 'C10_link_wN', 'sum_scale_5', 'sum_scale_6', 'C10_link_delta'],
         native='c10',
         assumptions=['group members are one-character strings (multi-character or non-string members: native check only)',
-                     'links "w=N equals the global parameter" and "delta = mean squared deviation of the sigma profiles" follow from the shared spec functions (win_* and sigma_of are the ones C02/C04 are proved against); they are additionally checked natively, not as separate theorems',
+                     'links as theorems over the closed forms: with w = N the window statistic of the single window IS the global closed form (C10_link_wN, syntactic identity of the spec functions C02/C04 are proved against), and delta_spec equals the mean over w = 5, 6 of the mean squared deviation of the sigma-profile entries from the global sigma (C10_link_delta with the scaling lemmas sum_scale_5/6)',
                      'iteration over set(list) modelled as iteration over the list (order abstracted)'],
         design_ref='2 / C10',
     ),
@@ -275,14 +275,14 @@ PROPS = {
                                                                                               'get_WF_complexity', 'get_LC_complexity', 'get_LZW_complexity')] +
                   [SEQ + f for f in ('__check_window_to_length', 'get_linear_WF_complexity', 'get_linear_LC_complexity', 'get_linear_LZW_complexity')] +
                   [SP + 'get_linear_complexity', SP + 'get_linear_complexity#badtype'],
-        lemmas=[], lean=[('Entropy.lean', 'wf_le_one'), ('Entropy.lean', 'card_words')], extra=['C12'],
+        lemmas=['wf_counts_only', 'C11_wf_permutation', 'wf_homopolymer', 'C11_wf_homopolymer', 'nsym_all', 'nsym_none'], lean=[('Entropy.lean', 'wf_le_one'), ('Entropy.lean', 'card_words')], extra=['C12'],
         native='c11',
         assumptions=['proved by z3: window count K = floor((N-w)/s)+1 (all three types), positions strictly increasing inside 1..N, each WF value = - sum over the alphabet letters of p log_A p with p the letter\'s share of '
                      'ITS OWN window of the reduced sequence (locality: only indices [k s, k s + w) are read), LZW in [0,1], LC >= 0 and LC * vmax <= number of word positions, unknown type and w > N rejected, type case-insensitive',
                      'WF <= 1 is the Gibbs inequality and "at most A^k distinct words" is a counting fact: both proved in Lean 4 / Mathlib (/verif/lemmas/Entropy.lean: wf_le_one, card_words), stated in the shape the VC leaves; '
                      'the reading of the SMT sums as Finset sums and that the reduced letters are among the alphabet (sum of shares = 1) is the trusted link',
                      'log is uninterpreted (math.log(p, b) = logb(p, b)); n-gram sets are abstracted to their cardinality (membership = fresh boolean, add grows it by at most one)',
-                     'permutation invariance and "homopolymer -> 0" of WF follow from the closed form (counts only; log_b 1 = 0) and are checked natively'],
+                     'permutation invariance (two windows with the same letter counts have the same WF value: inductive lemma wf_counts_only, theorem C11_wf_permutation) and "homopolymeric window -> 0" (wf_homopolymer, C11_wf_homopolymer; uses the axiom instance log_b 1 = 0) are theorems over the closed form wf_spec the code is proved to return'],
         design_ref='2 / C11',
     ),
     'C05': dict(
